@@ -56,6 +56,7 @@ func init() {
 func floors(tier string) map[string]int64 {
 	f := map[string]int64{
 		"identity_blocks":                150,
+		"degenerate_root_deliveries":     25000,
 		"perturbations_evaluated":        45000,
 		"rederived_passes_validatebasic": 20000,
 		"schedules":                      5000,
